@@ -1624,7 +1624,10 @@ class NetworkGrid:
             agent: agent instance
             node_id: id of node
 
+        A move to a node that does not exist is rejected (KeyError) before anything changes.
         """
+        if node_id not in self.G.nodes:
+            raise KeyError(node_id)
         self.remove_agent(agent)
         self.place_agent(agent, node_id)
 
